@@ -100,3 +100,123 @@ Proof.
   induction l as [|f fs IH]; intros a Hlen; destruct a as [|p a]; try discriminate; [reflexivity|].
   cbn [combine flat_map]. rewrite map_app, map_map. cbn [snd fst]. f_equal. apply IH. cbn in Hlen. lia.
 Qed.
+
+(* ======================================================================== *)
+(* the walk with a runtime object: pruning                                     *)
+(* ======================================================================== *)
+(* C09 proves the pruning step by step (C09_pruning_enumerated: each expansion of a
+   sub-tree name is skipped exactly when the oracle reports a NULL object or a false
+   'enabled by' for that address).  Here the steps are put together for whole trees
+   whose ports carry no metadata block the walk itself reads (the 'enabled by' of a
+   sub-tree port is the oracle's; the forms that make the walker report an enabling
+   port - "name/toggle", rSelf - are outside). *)
+Fixpoint nometa (p : sport) : Prop :=
+  match p with
+  | SPort _ _ m s =>
+      m = None /\
+      match s with
+      | None => True
+      | Some l => (fix all (l : list sport) : Prop := match l with [] => True | x :: r => nometa x /\ all r end) l
+      end
+  end.
+
+Lemma nometa_all : forall l,
+  (fix all (l : list sport) : Prop := match l with [] => True | x :: r => nometa x /\ all r end) l -> Forall nometa l.
+Proof. induction l as [|x r IH]; intros H; [constructor|]. destruct H. constructor; auto. Qed.
+
+Fixpoint spec_pruned_port (o : oracle) (ids : list nat) (prefix : str) (p : sport) {struct p} : list report :=
+  match p with
+  | SPort segs _ _ None => map (fun a => (ids, prefix ++ a)) (expand segs)
+  | SPort segs _ _ (Some l) =>
+      flat_map (fun a =>
+        if pruned (Some o) (prefix ++ a) then [] else
+        (fix go (l : list sport) (i : nat) : list report :=
+           match l with
+           | [] => []
+           | q :: r => spec_pruned_port o (ids ++ [i]) (prefix ++ a) q ++ go r (S i)
+           end) l 0%nat) (expand segs)
+  end.
+
+Fixpoint spec_pruned_table (o : oracle) (ids : list nat) (pre : str) (l : list sport) (i : nat) : list report :=
+  match l with
+  | [] => []
+  | q :: r => spec_pruned_port o (ids ++ [i]) pre q ++ spec_pruned_table o ids pre r (S i)
+  end.
+
+Lemma spec_pruned_subtree : forall o ids pre sg a m l,
+  spec_pruned_port o ids pre (SPort sg a m (Some l)) =
+  flat_map (fun x => if pruned (Some o) (pre ++ x) then [] else spec_pruned_table o ids (pre ++ x) l 0%nat) (expand sg).
+Proof.
+  intros. cbn [spec_pruned_port]. apply flat_map_ext. intros x.
+  destruct (pruned (Some o) (pre ++ x)); [reflexivity|].
+  generalize 0%nat. induction l as [|q r IH]; intros i; [reflexivity|].
+  cbn [spec_pruned_table]. rewrite <- IH. reflexivity.
+Qed.
+
+Theorem walk_pruned_wf : forall o, (forall b, o_selfoff o b = false) ->
+  forall p ids buf sg a m l,
+  p = SPort sg a m (Some l) -> Forall sport_wf l -> Forall nometa l -> buf <> [] ->
+  walk_port (Some o) ids (render_port p) buf = WOk (spec_pruned_table o ids buf l 0%nat) buf.
+Proof.
+  intros o Hself. induction p as [sg0 a0 m0 s0 IHs] using sport_ind2.
+  intros ids buf sg a m l E Hl Hnm Hb. inversion E; subst. clear E.
+  cbn [render_port walk_port]. rewrite (norm_nonempty buf Hb), Hself.
+  assert (Hloop : forall l' i out0,
+            Forall sport_wf l' -> Forall nometa l' ->
+            Forall (fun q => forall ids buf sg a m l, q = SPort sg a m (Some l) -> Forall sport_wf l -> Forall nometa l -> buf <> [] ->
+                       walk_port (Some o) ids (render_port q) buf = WOk (spec_pruned_table o ids buf l 0%nat) buf) l' ->
+            loop_ports (fun q ids' b => walk_port (Some o) ids' q b) (Some o) ids (length buf)
+                       (map render_port l') i out0 buf
+            = WOk (out0 ++ spec_pruned_table o ids buf l' i) buf).
+  { induction l' as [|q r IHr]; intros i out0 Hpl Hpn HIH.
+    - cbn [map loop_ports spec_pruned_table]. rewrite app_nil_r. reflexivity.
+    - inversion Hpl as [|? ? Hq Hr]; subst. inversion Hpn as [|? ? Hqn Hrn]; subst.
+      inversion HIH as [|? ? HIq HIr]; subst.
+      cbn [map loop_ports spec_pruned_table].
+      destruct q as [sg1 a1 m1 s1]. cbn [sport_wf] in Hq. destruct Hq as [Ha Hq].
+      cbn [nometa] in Hqn. destruct Hqn as [-> Hqn].
+      destruct s1 as [l1|].
+      + (* a sub-tree: every expansion of its name, pruned or walked *)
+        destruct Hq as [[cs [-> [Hcs Hne]]] Hsub].
+        cbn [render_port].
+        change (render_name (comps_segs cs) a1) with (flatten (comps_segs cs) ++ a1).
+        rewrite (step_port_subtree (fun q ids' b => walk_port (Some o) ids' q b) (Some o) ids i cs a1 None
+                   (map render_port l1) buf Hcs Hne Ha).
+        set (ws := map (fun x : list Z => buf ++ x) (expand (comps_segs cs))).
+        rewrite (run_all_const _ (fun b => if pruned (Some o) b then [] else spec_pruned_table o (ids ++ [i]) b l1 0%nat) ws).
+        * destruct (last_extends buf (expand (comps_segs cs))) as [x Hx].
+          unfold ws. rewrite Hx.
+          replace (length (buf ++ x) <? length buf)%nat with false
+            by (symmetry; apply Nat.ltb_ge; rewrite app_length; lia).
+          rewrite firstn_app_exact. rewrite IHr by assumption.
+          rewrite <- app_assoc. f_equal. f_equal. cbn [app].
+          rewrite spec_pruned_subtree. rewrite flat_map_map. reflexivity.
+        * intros w Hw. unfold ws in Hw. apply in_map_iff in Hw. destruct Hw as [x [<- _]].
+          destruct (pruned (Some o) (buf ++ x)) eqn:Ep.
+          -- f_equal. unfold skipped_reports. destruct (negb (o_null o (buf ++ x)) && o_disabled o (buf ++ x)); reflexivity.
+          -- change (Port (flatten (comps_segs cs) ++ a1) None (Some (map render_port l1)))
+               with (render_port (SPort (comps_segs cs) a1 None (Some l1))).
+             apply (HIq (ids ++ [i]) (buf ++ x) (comps_segs cs) a1 None l1 eq_refl (wf_all_forall _ Hsub) (nometa_all _ Hqn)).
+             intros E0. apply app_eq_nil in E0. destruct E0. contradiction.
+      + (* a leaf: as without a runtime object *)
+        cbn [render_port]. unfold step_port.
+        assert (Hh : has_char 35 (render_name sg1 a1) = has_enum sg1).
+        { unfold render_name. fold (flatten sg1). rewrite has_char_app, (flatten_hash sg1 Hq).
+          destruct Ha as [_ ->]. apply orb_false_r. }
+        rewrite Hh. destruct (has_enum sg1) eqn:Ee.
+        * unfold render_name at 2. fold (flatten sg1).
+          rewrite (bundle_spec sg1 a1 buf _ Hq Ha Ee)
+            by (pose proof (count_enum_le sg1); unfold render_name; fold (flatten sg1); rewrite app_length; lia).
+          rewrite Nat.ltb_irrefl, firstn_all. rewrite IHr by assumption.
+          rewrite <- app_assoc. f_equal. f_equal. cbn [spec_pruned_port]. rewrite map_map. reflexivity.
+        * assert (Hup : WalkModel.upto_colon (render_name sg1 a1) = flatten sg1).
+          { unfold render_name. fold (flatten sg1). apply upto_colon_name; [apply flatten_enumfree_colon; assumption | apply Ha]. }
+          rewrite Hup.
+          replace (length (buf ++ flatten sg1) <? length buf)%nat with false
+            by (symmetry; apply Nat.ltb_ge; rewrite app_length; lia).
+          rewrite firstn_app_exact. rewrite IHr by assumption.
+          rewrite <- app_assoc. f_equal.
+          cbn [spec_pruned_port]. rewrite (expand_enumfree sg1 Ee). reflexivity. }
+  specialize (Hloop l 0%nat [] Hl Hnm). cbn [app] in Hloop. apply Hloop.
+  eapply Forall_impl; [|exact IHs]. intros q Hq. exact Hq.
+Qed.
